@@ -13,8 +13,8 @@ import (
 
 // invocation is one call of the scripted handler.
 type invocation struct {
-	Msg          p9p.Message
-	Ctx          context.Context
+	Msg      p9p.Message
+	Ctx      context.Context
 	Returned bool
 }
 
@@ -102,7 +102,7 @@ func replyID(m p9p.Message) int {
 		}
 		return -1
 	}
-	if len(s) >= 2 && (s[0] == 'r' || s[0] == 'e') {
+	if len(s) >= 2 && (s[0] == 'r' || s[0] == 'e' || s[0] == 'c') {
 		n := 0
 		for _, ch := range s[1:] {
 			if ch < '0' || ch > '9' {
@@ -123,7 +123,11 @@ func (h *scriptHandler) Handle(ctx context.Context, msg p9p.Message) (p9p.Messag
 	defer func() {
 		inv.Returned = true
 	}()
-	switch h.Mode {
+	mode := h.Mode
+	if mode == BlockCtx && id != 0 {
+		mode = IgnoreCtx // only request 0 blocks until cancelled
+	}
+	switch mode {
 	case HonourCtx:
 		// completes or notices cancellation, whichever the schedule delivers
 		ready := make(chan struct{}, 1)
@@ -131,13 +135,13 @@ func (h *scriptHandler) Handle(ctx context.Context, msg p9p.Message) (p9p.Messag
 		i, _, _ := vsched.Select("handler.wait", false, vsched.RecvCase(ctx.Done()), vsched.RecvCase(ready))
 		if i == 0 {
 			vsched.Logf("handle id=%d cancelled", id)
-			return nil, ctx.Err()
+			return nil, fmt.Errorf("c%d", id)
 		}
 	case BlockCtx:
 		// never completes on its own: returns only once cancelled
 		vsched.Select("handler.block", false, vsched.RecvCase(ctx.Done()))
 		vsched.Logf("handle id=%d cancelled", id)
-		return nil, ctx.Err()
+		return nil, fmt.Errorf("c%d", id)
 	default:
 		for i := 0; i <= h.Steps; i++ {
 			vsched.Yield("handler.work", 0)
